@@ -19,13 +19,14 @@ RECURSIVE Val(_, _, _)
 Val(g, inp, v) ==
   IF v <= g.ni THEN inp[v]
   ELSE LET i == v - g.ni
-           args == [p \in DOMAIN g.ops[i].ins |-> Val(g, inp, g.ops[i].ins[p])]
+           deps == g.ops[i].ins \o g.ops[i].caps     \* a capturing operator mixes its inputs, then its captured values
+           args == [p \in DOMAIN deps |-> Val(g, inp, deps[p])]
            n == MaxLen(args, Len(args))
        IN [j \in 1..n |-> (SumTerms(args, j, Len(args)) + 7 * i + 1) % Modulus]
 
 \* contract sets, as in PartialEval.tla (value ids; operator i produces value ni + i)
 NVof(g) == g.ni + Len(g.ops)
-InsOf(g, v) == {g.ops[v - g.ni].ins[k] : k \in DOMAIN g.ops[v - g.ni].ins}
+InsOf(g, v) == {g.ops[v - g.ni].ins[k] : k \in DOMAIN g.ops[v - g.ni].ins} \cup {g.ops[v - g.ni].caps[k] : k \in DOMAIN g.ops[v - g.ni].caps}
 RECURSIVE LfpT(_, _)
 LfpT(F(_), X) == LET Y == X \cup F(X) IN IF Y = X THEN X ELSE LfpT(F, Y)
 Computable(g, S) == LET Step(X) == {v \in (g.ni + 1)..NVof(g) : ~g.ops[v - g.ni].nondet /\ InsOf(g, v) \subseteq X} IN LfpT(Step, S)
